@@ -45,6 +45,8 @@ def gen_cfg(rng, focus, solvers=('nm', 'powell', 'de', 'de2')):
                 nb = K.gen_box(rng, dim, cfg['x0'], shape=rng.choice(['finite', 'finite', 'onesided']))
                 box['change'] = {'at': box['when'] + rng.randint(1, 4), 'lo': nb['lo'], 'hi': nb['hi'],
                                  'remove_first': rng.random() < 0.3}
+            if rng.random() < 0.2:
+                box['reject_at'] = max(1, box['when']) + rng.randint(0, 3); box['after_reject'] = rng.choice(['evalmon', 'finalize', 'penalty', 'none'])
             box['none_entries'] = rng.random() < 0.15
             if rng.random() < 0.25 and box['shape'] == 'finite':
                 # bounds given as python ints (whole-number box); a later change to fractional bounds must be taken as given
@@ -155,6 +157,7 @@ class Run(object):
         if tight is not None: kw['tight'] = tight
         if clip is not None: kw['clip'] = clip
         s.SetStrictRanges(alo, ahi, **kw)
+        self.box_call = (list(alo), list(ahi), dict(kw))
         lo2 = [(-1e3 if a is None else float(a)) for a in alo]
         self.box = {'lo': lo2, 'hi': [float(v) for v in ahi], 'tight': tight, 'clip': clip}
         self.stale = True
@@ -224,6 +227,24 @@ class Run(object):
                 self.install_box(s, ch['lo'], ch['hi'], box['tight'], box['clip'])
             if cons and cons['when'] == step and step > 0:
                 self.install_cons(s, cons['spec'], cons['inplace'], pending if bykw else None)
+            if box and box.get('reject_at') == step and self.box is not None and getattr(self, 'box_call', None):
+                # a change of the ranges that the solver REJECTS (min > max, or a wrong length): the ranges that were set stay in force,
+                # also after the objective is next re-built
+                alo, ahi, bkw = self.box_call
+                swap = any(a is not None and a < b for a, b in zip(alo, ahi))
+                bad = (list(ahi), [(-1e3 if a is None else a) for a in alo]) if swap else (list(alo) + [0.0], list(ahi) + [1.0])
+                try:
+                    s.SetStrictRanges(bad[0], bad[1], **bkw)
+                except ValueError:
+                    o.event('rejected_range_changes')
+                    how = box.get('after_reject')
+                    if how == 'evalmon':
+                        from mystic.monitors import Monitor
+                        s.SetEvaluationMonitor(Monitor())
+                    elif how == 'finalize': s.Finalize()
+                    elif how == 'penalty': s.SetPenalty(K.make_penalty(cfg['pen']) if cfg.get('pen') is not None else None)
+                else:
+                    o.event('range_change_expected_to_be_rejected_was_accepted'); self.box = None
             ncalls_before = self.probe.n
             if pending:
                 o.event('configured_by_step_keywords')
@@ -280,8 +301,9 @@ class Run(object):
             # every member's stored energy is the objective at that member
             if (cfg['solver'] in ('de', 'de2')) or sn['gens'] >= 1:
                 for m, e in zip(sn['pop'], sn['ene']):
-                    if not math.isfinite(e):
+                    if e is None or e != e:
                         continue
+                    # (an infinite stored energy is judged like any other: inside the closed box, with a finite cost, the objective is finite)
                     if tightmode:
                         cm = self.cons(m) if self.cons else list(m)
                         if cm != list(m) or not K.in_box(m, self.box):
